@@ -7,4 +7,5 @@ let () =
   | [| _; "sol" |] -> Sol_driver.run ()
   | [| _; "grid" |] -> Grid_driver.run ()
   | [| _; "nn" |] -> Nn_driver.run ()
+  | [| _; "codec" |] -> Codec_driver.run ()
   | _ -> prerr_endline "usage: ompl_model <heap|...>"; exit 2
